@@ -31,6 +31,8 @@ def main():
     scratch = tempfile.mkdtemp(prefix='tfmut_')
     repo = os.path.join(scratch, 'repo'); sverif = os.path.join(scratch, 'verif')
     os.makedirs(sverif)
+    # private copy of the checker: rebuilding /verif/bin/tfcheck during a long run must not change the verdicts
+    tfbin = os.path.join(scratch, 'tfcheck'); shutil.copy(os.path.join(VERIF, 'bin/tfcheck'), tfbin)
     shutil.copy(os.path.join(VERIF, 'known_findings.json'), sverif) if os.path.exists(os.path.join(VERIF, 'known_findings.json')) else None
     subprocess.check_call(['rsync', '-a', '--exclude', '.git', '--exclude', '.gopath', '/repo/', repo + '/'])
     fails = 0
@@ -51,7 +53,7 @@ def main():
             if ok_apply:
                 res_ok = True
                 for prop in m['props']:
-                    p = subprocess.run([os.path.join(VERIF, 'bin/tfcheck'), '-prop', prop, '-repo', repo, '-verif', sverif],
+                    p = subprocess.run([tfbin, '-prop', prop, '-repo', repo, '-verif', sverif],
                                        env=ENV, capture_output=True, text=True)
                     out = p.stdout + p.stderr
                     if m.get('expect') == 'SILENT':
@@ -84,7 +86,7 @@ def main():
                 if ap1.returncode != 0:
                     print(f"FAIL seed {meta['id']}: patch does not apply: {ap1.stderr[:300]}"); fails += 1; continue
                 prop = meta['breaks']
-                p = subprocess.run([os.path.join(VERIF, 'bin/tfcheck'), '-prop', prop, '-repo', repo, '-verif', sverif], env=ENV, capture_output=True, text=True)
+                p = subprocess.run([tfbin, '-prop', prop, '-repo', repo, '-verif', sverif], env=ENV, capture_output=True, text=True)
                 out = p.stdout + p.stderr
                 want = meta.get('detected_by', {}).get('expect', '')
                 caught = p.returncode == 1 and 'VIOLATION property=' + prop in out
